@@ -11,6 +11,7 @@ def gen_ops(r, n):
         c = r.random()
         if c < 0.3 and live: ops.append(f"{r.choice('FFG')}:{r.randrange(NFN)}")
         elif c < 0.8: ops.append(("T:" if r.random() < 0.2 else "A:") + str(r.randrange(NFN)))
+        elif c < 0.84 and r.random() < 0.5: ops.append(f"X:{r.randrange(NFN)}")
         elif c < 0.9 and live: ops.append("D"); live = False
         elif not live: ops.append("N"); live = True
         else: ops.append(f"A:{r.randrange(NFN)}")
@@ -18,7 +19,7 @@ def gen_ops(r, n):
 
 def run(res, tier, seed, replay):
     res.cov["rule"] = ("real: 6 sibling async functions (free functions and a method; by-value and by-reference parameters; unit, u32, String and 136-byte [u64;17] outputs; two with the SAME output type; originals suspending 0-3 times and counting their body runs), "
-                       "random sequences (length <= 30, plus lifetimes holding 360-900 (quick) / up to 6000 (thorough) live fakes) of fake (two different fakes per function, so that re-faking A, B, A is exercised) / await / await on a spawned thread / drop injector / new injector through async_func!/async_return! whose value expression counts its evaluations, run with a hand-written poll-counting executor in a forked child; "
+                       "random sequences (length <= 30, plus lifetimes holding 360-900 (quick) / up to 6000 (thorough) live fakes) of fake (two different fakes per function, so that re-faking A, B, A is exercised) / await / await on a spawned thread / ANOTHER thread running a whole lifetime of its own on the same async fn (must wait for the current injector and leave nothing behind) / drop injector / new injector through async_func!/async_return! whose value expression counts its evaluations, run with a hand-written poll-counting executor in a forked child; "
                        "per await: value class, number of polls, body runs, evaluations; after the sequence every function is awaited once more (original behaviour back); each result is compared with the extracted dispatch spec; "
                        "distinct = distinct (function, faked?, thread?, outcome)")
     res.cov["trusted_base"] = vlib.TRUSTED_COMMON + ["distinct async fns have distinct future types and distinct <F as Future>::poll symbols (rustc's lowering; observed, not proved)", "harness/real asyncs.rs executor and counters"]
@@ -49,7 +50,9 @@ def run(res, tier, seed, replay):
         for l in o.split("\n"):
             t = l.split(" ", 2)
             if len(t) >= 2: obs.setdefault(t[0], {})[t[1]] = t[2] if len(t) > 2 else ""
-    M = vlib.run_model([f"{cid} asyncrun {','.join(map(str, YIELDS))} {','.join(ops)}" for cid, ops in cases])
+    # X ops (another thread's whole lifetime) are serialised by the process-wide guard after the current injector's drop (or run at once when
+    # there is none) and restore what they did: the model runs the sequence without them
+    M = vlib.run_model([f"{cid} asyncrun {','.join(map(str, YIELDS))} {','.join(o for o in ops if not o.startswith('X:')) or '-'}" for cid, ops in cases])
     distinct = set(); corr = []
     orig_after = ",".join(f"{i}:{'u' if i == 2 else 'o'}:{1 + YIELDS[i]}:1:0" for i in range(NFN))
     for cid, ops in cases:
@@ -57,10 +60,23 @@ def run(res, tier, seed, replay):
         case = dict(id=cid, ops=",".join(ops))
         if o.get("CHILD") != "exit:0" or "RES" not in o:
             res.violation(f"async run died ({o.get('CHILD')})", case, str(o)[:400]); continue
-        got = o["RES"].split(","); want = M.get(cid, "").split(",")
+        got = [x for x in o["RES"].split(",") if x]; want = [x for x in M.get(cid, "").split(",") if x]
+        xs = [x for x in o.get("XRES", "").split(",") if x]
+        nx = 0; live_x = True
+        for op, g in zip(ops, got):
+            if op == "D": live_x = False
+            elif op == "N": live_x = True
+            elif op.startswith("X:"):
+                nx += 1
+                if live_x and g != "X:0":
+                    res.violation(f"while this thread's injector was alive, another thread created its own injector and faked async fn {op[2:]} without waiting for it", case, g)
+        if nx != len(xs) or any(x.split(":")[1] not in ("x", "u") or x.split(":")[2:4] != ["1", "0"] for x in xs):
+            res.violation("the other thread's own lifetime on an async fn did not behave as a faked await (value of ITS fake, first poll, no body run, one evaluation)", case, o.get("XRES"))
+        keep = [k for k, op in enumerate(ops) if not op.startswith("X:")]
+        got_all = got; got = [got[k] for k in keep if k < len(got)]; ops_m = [ops[k] for k in keep]
         # model-free monitor: the spec of the statement, straight on the observation
         faked = {}; live = True
-        for op, g in zip(ops, got):
+        for op, g in zip(ops_m, got):
             t = op.split(":")
             if t[0] in ("F", "G") and live: faked[int(t[1])] = "f" if t[0] == "F" else "g"
             elif t[0] == "D": faked = {}; live = False
